@@ -655,6 +655,8 @@ func runC19(c *ctx) {
 	c.c19nNewAll(r)
 	c.c19nMessagesAll(r)
 	c.c19nIDSlicePrefix(r)
+	// 2c. one hash object reused after failed writes (c19_reuse.go)
+	c.c19rReuseAll(rand.New(rand.NewSource(c.res.Seed*7919 + 19))) // own stream derived from the seed: the cases of the other parts stay what they were
 	// 3. commitments
 	nCom := 60
 	if c.thorough() {
@@ -764,7 +766,7 @@ func (c *ctx) c19Commit(r *rand.Rand, s []sx.V) {
 
 func c19Replay_(c *ctx) {
 	// replay file: JSON with seq_a / seq_b; re-run the digest comparison
-	if c.c19nReplayRun() {
+	if c.c19rReplayRun() || c.c19nReplayRun() {
 		return
 	}
 	var rp c19Replay
